@@ -521,6 +521,75 @@ func ruleErrorsExamined(pkgs ...string) ruleFn {
 					if leak != nil {
 						pos = leak.Pos()
 					}
+					// in a front-end handler a failed binding / validation ends the request: from the
+					// non-nil outcome of the error's test the submission to the kernel is unreachable
+					if leak == nil && (pp == pkgHttp || pp == pkgGrpc) && s.name != "API.Process" {
+						isSubmit := func(nd ast.Node) bool {
+							found := false
+							ast.Inspect(nd, func(y ast.Node) bool {
+								if call, ok := y.(*ast.CallExpr); ok {
+									if fn, ok := calleeOf(info, call).(*types.Func); ok && fn.Name() == "Process" && isFuncOf(fn, pkgSubApi, "API") {
+										found = true
+									}
+								}
+								return true
+							})
+							return found
+						}
+						for _, b := range g.Blocks {
+							if len(b.Succs) != 2 || len(b.Nodes) == 0 {
+								continue
+							}
+							cond, ok := b.Nodes[len(b.Nodes)-1].(ast.Expr)
+							if !ok {
+								continue
+							}
+							eo, nonNil, ok := nilTest(info, cond)
+							if !ok || eo != s.v || cond.Pos() < s.node.Pos() {
+								continue
+							}
+							start := b.Succs[1]
+							if nonNil {
+								start = b.Succs[0]
+							}
+							seen := map[*cfg.Block]bool{}
+							work := []*cfg.Block{start}
+							for len(work) > 0 && leak == nil {
+								x := work[len(work)-1]
+								work = work[:len(work)-1]
+								if seen[x] {
+									continue
+								}
+								seen[x] = true
+								stop := false
+								for _, nd := range x.Nodes {
+									// a later definition of the same variable ends this error's life
+									if as, ok := nd.(*ast.AssignStmt); ok && nd != s.node {
+										for _, l := range as.Lhs {
+											if isObj(info, l, s.v) {
+												stop = true
+											}
+										}
+									}
+									if stop {
+										break
+									}
+									if isSubmit(nd) {
+										leak = nd
+										break
+									}
+								}
+								if !stop {
+									work = append(work, x.Succs...)
+								}
+							}
+							break // the first test of this error
+						}
+						if leak != nil {
+							c.bad(key, leak.Pos(), fmt.Sprintf("after %s failed (%s != nil) the handler still reaches the submission to the kernel at %s: a request that failed its binding / validation is submitted half-filled", s.name, s.v.Name(), c.P.pos(leak.Pos())))
+							continue
+						}
+					}
 					c.check(leak == nil, key, pos, "the error is examined on every path", fmt.Sprintf("the error of %s (%s) is not examined on a path that goes on to %s: a failed binding / decode / validation is ignored and the function continues with what it has", s.name, s.v.Name(), c.P.pos(pos)))
 				}
 			}
